@@ -120,7 +120,9 @@ def checkSnap {ga : Nat → Int} (b : Nat) : Nat → List Char → V ga → R ga
   | _, [], v => .ok v
   | k, c :: rest, v =>
     let m := stChar (v.m.s.status b k)
-    if c == m then checkSnap b (k + 1) rest v
+    -- 'U': EAI_INPROGRESS observed on an item whose caller-supplied initial value already was
+    -- EAI_INPROGRESS: stale or in progress, but not final
+    if c == m || (c == 'U' && m != 'D') then checkSnap b (k + 1) rest v
     else match pendingBy v b k with
       | some x =>
         if c == 'D' then do
